@@ -49,14 +49,16 @@ var replaceBytes = []byte{0x00, 0x01, 0x7f, 0x80, 0xfb, 0xfc, 0xfd, 0xfe, 0xff}
 //	seq     header sequence id = V
 //	stmtid  statement id (payload[1:5]) = V
 //	ptype   (seed exec1 only) parameter type code P, flag V, value cut to W bytes
+//	cmds    (seed cmd_seq only) the texts L, each sent as COM_QUERY after the answer to the previous one
 //	sql     (seed sql_text only) COM_QUERY with the text T (a broken statement of the text family)
 type Mut struct {
-	K string `json:"k"`
-	P int    `json:"p"`
-	V int    `json:"v"`
-	W int    `json:"w,omitempty"`
-	T string `json:"t,omitempty"` // sql: the statement text
-	X string `json:"x,omitempty"` // sql: the statement text in hex (when it is not printable UTF-8)
+	K string   `json:"k"`
+	P int      `json:"p"`
+	V int      `json:"v"`
+	W int      `json:"w,omitempty"`
+	T string   `json:"t,omitempty"` // sql: the statement text
+	X string   `json:"x,omitempty"` // sql: the statement text in hex (when it is not printable UTF-8)
+	L []string `json:"l,omitempty"` // cmds: COM_QUERY texts sent one after the other on one connection
 }
 
 // text of a sql mutation
@@ -93,6 +95,8 @@ func (c Case) String() string {
 		switch m.K {
 		case "ptype":
 			ms = append(ms, fmt.Sprintf("ptype(type=0x%02x,flag=0x%02x,value_bytes=%d)", m.P, m.V, m.W))
+		case "cmds":
+			ms = append(ms, fmt.Sprintf("%q", m.L))
 		case "sql":
 			ms = append(ms, fmt.Sprintf("%q", m.text()))
 		case "trunc":
@@ -222,6 +226,8 @@ func initSeeds() {
 		cmdSeed("reset_connection_unsupported", "", false, []byte{0x1f}),
 		// sql_text is only used with sql mutations (the broken-statement text family)
 		{name: "sql_text", phase: "command", quick: true, build: func([]byte) []byte { return []byte("\x03select 1") }},
+		// multi-command sequences (transactions, SETs the backend rejects, data statements)
+		{name: "cmd_seq", phase: "command", quick: true, build: func([]byte) []byte { return []byte("\x03select 1") }},
 		{name: "sql_bytes", phase: "command", quick: true, build: func([]byte) []byte { return []byte("\x03select 1") }},
 		// the same through doMultiStmts: multi-statement namespace + CLIENT_MULTI_STATEMENTS
 		{name: "multi_ctrl", phase: "command", quick: true, multi: true, build: func([]byte) []byte { return []byte("\x03select 1;select 2") }},
@@ -250,13 +256,17 @@ func apply(s *seed, salt []byte, muts []Mut) []byte {
 	seq := -1
 	// positional mutations refer to the ORIGINAL payload: apply byte/stmtid first, then
 	// lenenc (which shifts), then trunc
-	order := map[string]int{"sql": 0, "ptype": 0, "byte": 1, "stmtid": 1, "lenenc": 2, "trunc": 3, "hdrlen": 4, "seq": 4}
+	order := map[string]int{"cmds": 0, "sql": 0, "ptype": 0, "byte": 1, "stmtid": 1, "lenenc": 2, "trunc": 3, "hdrlen": 4, "seq": 4}
 	ms := append([]Mut(nil), muts...)
 	sort.SliceStable(ms, func(i, j int) bool { return order[ms[i].K] < order[ms[j].K] })
 	for _, m := range ms {
 		switch m.K {
 		case "ptype":
 			payload = exec1(0, byte(m.P), byte(m.V), m.W)
+		case "cmds":
+			if len(m.L) > 0 {
+				payload = append([]byte{0x03}, m.L[len(m.L)-1]...) // the last command of the sequence
+			}
 		case "sql":
 			payload = append([]byte{0x03}, m.text()...)
 		case "byte":
@@ -328,7 +338,7 @@ func midPacket(b []byte) bool {
 
 func singleMuts(s *seed) []Mut {
 	switch s.name {
-	case "exec1", "sql_text", "sql_bytes", "multi_ctrl", "multi_bytes", "multi_text":
+	case "cmd_seq", "exec1", "sql_text", "sql_bytes", "multi_ctrl", "multi_bytes", "multi_text":
 		return nil
 	}
 	n := len(s.build(make([]byte, 20)))
@@ -478,6 +488,37 @@ func byteTexts() []string {
 	return out
 }
 
+// cmdSeqs: every sequence of 2 and of 3 commands over a small alphabet of transaction
+// control, SET statements the backend rejects when the proxy replays them (the proxy itself
+// acknowledges and only remembers them), a valid user variable, a data statement.
+var seqAlphabet = []string{
+	"begin",
+	"set autocommit=0",
+	"set @v = nosuch()",
+	"set sql_mode='NO_SUCH_MODE'",
+	"set @w = 1",
+	"select v from tp where id=1",
+	"commit",
+}
+
+func cmdSeqs() [][]string {
+	var out [][]string
+	n := len(seqAlphabet)
+	for a := 0; a < n; a++ {
+		for b := 0; b < n; b++ {
+			out = append(out, []string{seqAlphabet[a], seqAlphabet[b]})
+		}
+	}
+	for a := 0; a < n; a++ {
+		for b := 0; b < n; b++ {
+			for c := 0; c < n; c++ {
+				out = append(out, []string{seqAlphabet[a], seqAlphabet[b], seqAlphabet[c]})
+			}
+		}
+	}
+	return out
+}
+
 // ctrlTexts: multi-statement texts with one stray byte before / between / after the ';'.
 func ctrlTexts() []string {
 	var out []string
@@ -505,6 +546,9 @@ func universe(thorough bool) []Case {
 	}
 	for _, t := range sqlTexts() {
 		cs = append(cs, Case{Seed: "sql_text", Muts: []Mut{{K: "sql", T: t}}})
+	}
+	for _, l := range cmdSeqs() {
+		cs = append(cs, Case{Seed: "cmd_seq", Muts: []Mut{{K: "cmds", L: l}}})
 	}
 	for _, t := range byteTexts() {
 		cs = append(cs, Case{Seed: "sql_bytes", Muts: []Mut{sqlMut(t)}})
@@ -623,6 +667,30 @@ func runCase(addr string, c Case, quickHang bool) result {
 			}
 			if strings.HasSuffix(s.setup, "+close") {
 				cl.Command(0x19, le32(st.ID))
+			}
+		}
+	}
+	// a command sequence: every command but the last is sent here and must be answered
+	// (any answer) or end in a close within the horizon; the last one goes the usual way
+	for _, m := range c.Muts {
+		if m.K != "cmds" {
+			continue
+		}
+		for i := 0; i+1 < len(m.L); i++ {
+			cl.Timeout = horizon
+			if err := cl.Command(0x03, []byte(m.L[i])); err != nil {
+				res.outcome = fmt.Sprintf("closed_at_command_%d", i+1)
+				return res
+			}
+			if _, err := cl.ReadResult(nil); err != nil {
+				if ne, ok := err.(net.Error); ok && ne.Timeout() {
+					res.outcome, res.bad = fmt.Sprintf("no_answer_at_command_%d", i+1), "hang"
+					res.detail = fmt.Sprintf("command %d of the sequence (%q) got no answer and no close within %v", i+1, m.L[i], horizon)
+					res.sent = []byte(m.L[i])
+					return res
+				}
+				res.outcome = fmt.Sprintf("closed_at_command_%d", i+1)
+				return res
 			}
 		}
 	}
@@ -778,6 +846,10 @@ func backendHandler(c *fakemysql.ConnInfo, sql string) *fakemysql.Result {
 		if t == strings.ToLower(sk) {
 			return nil
 		}
+	}
+	switch t {
+	case "begin", "commit", "rollback", "start transaction":
+		return nil
 	}
 	for _, p := range []string{"select 1", "select v from tp where id=", "show ", "kill "} {
 		if strings.HasPrefix(t, p) && strings.Count(t, "(") == strings.Count(t, ")") && strings.Count(t, "'")%2 == 0 {
